@@ -44,7 +44,7 @@ def check_defined(rep, repo, rule, roots, label):
             n_bad += 1
             rep.fail(rule, f.where, '%s: "found at position 0" is told apart from "not found"' % label, got='%s holds None or the 0-based index %s and is tested for truth at line %d: position 0 counts as absent' % (name, idx, line),
                      want='`is None` / `is not None`', construct='truth test of the position %s in %s' % (name, f.qualname), loc='%s:%d' % (f.relpath, line))
-        for name, line in lints.iterators_consumed_twice(f):
+        for name, line in lints.iterators_consumed_twice(f, repo):
             n_bad += 1
             rep.fail(rule, f.where, '%s: a one-shot iterator is consumed once' % label, got='%s is a generator / iterator object; its second consumer (line %d) finds it exhausted and sees nothing' % (name, line),
                      want='a list, or one expression per consumer', construct='iterator %s consumed twice in %s' % (name, f.qualname), loc='%s:%d' % (f.relpath, line))
